@@ -171,7 +171,7 @@ inline void explore(vh::Run& R, const std::string& cfg, const std::function<std:
 				bool child_owned = true;
 				if (depth == 0) child_owned = (branch++ % R.shard_n) == R.shard_k;
 				else if (depth == 1) { ++branch1; if ((vh::fnv(std::to_string(i) + ":" + std::to_string(alt) + ":" + choices_str(prefix)) >> 7) % R.shard_n != R.shard_k) continue; }
-				if (prune_by_hash && p.has_hash) { uint64_t k = p.hash * 1099511628211ULL + alt * 0x9e3779b97f4a7c15ULL + (uint64_t)c * 0x632be59bd9b4e019ULL; if (!seen.insert(k).second) { ++S.pruned; continue; } }
+				if (prune_by_hash && p.has_hash) { uint64_t k = p.hash * 1099511628211ULL + alt * 0x9e3779b97f4a7c15ULL + (bound >= 1000 ? 0 : (uint64_t)c * 0x632be59bd9b4e019ULL); /* without a bound the preemptions spent so far do not matter */ if (!seen.insert(k).second) { ++S.pruned; continue; } }
 				std::vector<int> np(ch.begin(), ch.begin() + i); np.push_back(alt);
 				rec(np, depth + 1, child_owned);
 				if (S.capped) return;
